@@ -96,6 +96,9 @@ def cases(tier, seed, i, n):
                             k += 1
                             cfg = dict(sb=sb, cb=cb, snct=snct, cnct=cnct, sp=(k + rep) % 8)
                             yield dict(kind='c2s', cfg=cfg, hseed=rnd.randrange(1 << 30))
+                            if k % 5 == 0:
+                                yield dict(kind='c2s', cfg=cfg, hseed=rnd.randrange(1 << 30), fault_at=rnd.randrange(6),
+                                           fault_kind=('timeout', 'runtime')[k // 5 % 2])
                             styles = ['sync', 'full', 'sync_multi', 'bfinal']
                             if snct:
                                 styles += ['stored', 'sync_level1']
@@ -159,9 +162,25 @@ def run_c2s(case, acc):
 
     hs = dict(extra=[('Sec-WebSocket-Extensions', ext_header(cfg['sb'], cfg['cb'], cfg['snct'], cfg['cnct'], cfg['sp']))])
     env.CASE_ENV['companion_ext'] = hs['extra'][0][1]
-    w = H.World(H.hs_server([], hs))
+    faults = {}
+    if case.get('fault_at') is not None and len(plan) > 1:
+        # ONE send fails before a single byte is written (EAGAIN-style timeout / an arbitrary exception): the call
+        # raises, the connection stays up.  The peer never saw that message - whatever is sent compressed afterwards
+        # must still be restored exactly, i.e. must not refer back to it.
+        faults[('sendall', 1 + case['fault_at'] % len(plan))] = case.get('fault_kind', 'timeout')
+    w = H.World(H.hs_server([], hs), faults=faults)
     run = H.drive(w, ws_kwargs=dict(compress=True), connect_kwargs=dict(ping_rate=0), policy=policy)
     acc.count2('configs', 'c2s')
+    if faults:
+        lost = [x for x in sent if x[3]['faulted']]
+        if not w.faults_hit or not lost:
+            acc.count2('c2s', 'send_fault_not_reached')
+        else:
+            acc.count2('c2s', 'histories_with_one_failed_send')
+            if any(x[3]['ok'] or x[3]['wire'] for x in lost):
+                acc.violation('failed-send-returned-normally-or-wrote:c2s', 'C06 %s' % cfgkey(cfg), case, dict(calls=[(x[3]['ok'], x[3]['exc']) for x in lost]))
+                return
+        sent = [x for x in sent if not x[3]['faulted']]
     if not sent:
         acc.violation('compression-handshake-failed', 'no Ready/Poll with extension header %r: %r' % (
             hs['extra'][0][1], run.normed()[-2:]), case, dict(events=run.normed()))
@@ -212,6 +231,8 @@ def run_c2s(case, acc):
                 detail.update(msg_index=j, got_len=len(got), exp_len=len(m))
                 break
     if key:
+        if faults:
+            key += ':after-a-failed-send'
         acc.violation(key + ':c2s', 'C06 %s %s' % (key, cfgkey(cfg)), case, detail)
     else:
         acc.cls('c2s/%s/sp%d' % (cfgkey(cfg), cfg['sp']))
